@@ -400,15 +400,21 @@ PROPERTIES["C10"] = {
           "ReqSocket::pipe_detached executed from MIR on a hand-assembled ReqSocket (two peers A, B; state ReadyToSend or ExpectingReply{A}); detached pipe in {A, B, unknown}; SocketCore, ingress engine and Notify are stubbed",
           budget={"quick": 100, "thorough": 100}, required_covers=["c10.req-detach.unrelated", "c10.req-detach.holder-left"]),
     ],
-    "assumptions": MIRSYM_TRUST + ["the ReqSocket value is assembled by the driver field by field (core = opaque, ingress engine's deregister_pipe = no-op); bounded exhaustive execution with concrete peers, not a solver query over symbolic data"],
+    "cfabmc": [
+        dict(name="c10_req_concurrent_send", module="verifkit.cfabmc.req_check",
+             scenarios={"quick": [dict(tasks=2)], "thorough": [dict(tasks=2), dict(tasks=3)]},
+             timeout_ms={"quick": 300000, "thorough": 1200000}),
+    ],
+    "assumptions": MIRSYM_TRUST + ["the ReqSocket value is assembled by the driver field by field (core = opaque, ingress engine's deregister_pipe = no-op); the detach obligation is a bounded exhaustive execution with concrete peers",
+                                   "cfa-bmc: the request-state mutex (lock / guard drop), reads and writes of ReqState and the connection's send_multipart().await (any of Ok / ConnectionClosed, no shared-state effect) are the visible operations; one connected peer; SNDTIMEO unset; SocketCore::is_running() = true"],
     "manifest": {
-        "engine": "mirsym",
-        "technique": "execution of ReqSocket::pipe_detached's MIR (mirsym) over all bounded state x event combinations",
-        "text": "One kernel of the property only: a peer-detach event changes the REQ request state only when the detached peer is the one holding the outstanding request (then the socket returns to ReadyToSend); detaching any other or an unknown pipe changes nothing.",
+        "engine": "mirsym+cfabmc",
+        "technique": "interleaving BMC (z3, symbolic scheduler) over the CFA of ReqSocket::send extracted by executing its MIR, with the state mutex, state reads/writes and the awaited peer send as visible operations; plus execution of ReqSocket::pipe_detached's MIR over all bounded state x event combinations",
+        "text": "Two kernels of the property. (1) Racing senders: for 2 (thorough: 3) tasks calling send() concurrently on one REQ socket in state ReadyToSend, under every interleaving of their lock/unlock, state read/write and awaited peer-send steps and every outcome of the peer send: at most one call returns Ok; when all calls have returned the state is ExpectingReply exactly if one succeeded and ReadyToSend otherwise (a refused or failed send never leaves the socket unusable); the state mutex is released. (2) A peer-detach event changes the request state only when the detached peer holds the outstanding request (then the socket returns to ReadyToSend).",
         "design_ref": "DESIGN.md §5 (C10)",
-        "note": "NOT claimed: alternation of send/recv for call histories, racing calls from several tasks (the two-lock-scope window in send() is visible by reading but not encoded), REP, reply routing - these live in async methods bound to SocketCore, tokio::select! and Notify.",
+        "note": "NOT claimed: recv() racing with send()/recv() (tokio::select! over the ingress engine and Notify), alternation over longer call histories, REP, reply routing, cancellation of the send future at its await (the guard's drop on the cancellation edge is not in the MIR dump).",
     },
-    "outside": "send/recv alternation, concurrent callers, REP socket, reply routing",
+    "outside": "recv races, longer histories, REP socket, reply routing, cancellation",
 }
 
 PROPERTIES["C18"] = {
@@ -431,7 +437,7 @@ PROPERTIES["C18"] = {
     "outside": "secrecy, tamper detection, nonce/key freshness (cryptography); batches of several messages",
 }
 
-HOOK_COMMITS = ["e6aec85", "b7f56e8", "904f401", "7ede9e5"]
+HOOK_COMMITS = ["e6aec85", "b7f56e8", "904f401", "7ede9e5", "6da26bc"]
 
 NOT_APPLICABLE = {
     "C09": "cancellation needs the drop glue of the suspended coroutine; rustc's -Zunpretty=mir dump does not contain coroutine drop shims, Kani cannot run async socket code, and the socket-level futures of the eight socket types reach into SocketCore/tokio; what the interleaving check can say (ready_tx.send never blocks, so ReadyPipeSender::send can only be cancelled at the pipe-full await) is reported under C08, not claimed here",
